@@ -69,8 +69,8 @@ func newMap(kind, cmp, vcmp string, m int) maps.Map[int, V] {
 func (x *mapInst) Fam() string  { return "map" }
 func (x *mapInst) Kind() string { return x.kind }
 func (x *mapInst) Cfg() Ev {
-	return Ev{"zero": 0, "sorted": mapSorted(x.kind), "cmp": x.cmp, "linked": x.kind == "linkedhashmap",
-		"bidi": mapBidi(x.kind), "vsorted": x.kind == "treebidimap", "vcmp": x.vcmp, "m": x.m,
+	return Ev{"zero": 0, "sorted": mapSorted(x.kind), "cmp": baseCmp(x.cmp), "linked": x.kind == "linkedhashmap",
+		"bidi": mapBidi(x.kind), "vsorted": x.kind == "treebidimap", "vcmp": baseCmp(x.vcmp), "m": x.m, "mag": isMag(x.cmp),
 		"aligned": !mapBidi(x.kind) && x.kind != "hashmap", "tree": treeKind(x.kind)}
 }
 
@@ -95,7 +95,9 @@ func (x *mapInst) Mask() reflect.Type {
 	}
 	return reflect.TypeOf(V(0))
 }
-func (x *mapInst) Mutates(op string) bool { return op == "Put" || op == "Remove" || op == "Clear" }
+func (x *mapInst) Mutates(op string) bool {
+	return op == "Put" || op == "Remove" || op == "Clear" || op == "FromJSON"
+}
 
 func vints(vs []V) []int {
 	out := make([]int, len(vs))
@@ -299,7 +301,7 @@ func (x *mapInst) Observe() Ev {
 			if n := t.GetNode(p); n != nil {
 				k, ok := 0, false
 				for _, e := range n.Entries {
-					if cmpIntQuiet(x.cmp, e.Key, p) == 0 {
+					if cmpIntQuiet(baseCmp(x.cmp), e.Key, p) == 0 {
 						k, ok = e.Key, true
 					}
 				}
@@ -440,6 +442,20 @@ func (x *mapInst) Do(c Call) []any {
 		return []any{m.Empty()}
 	case "String":
 		return []any{firstLine(m.String())}
+	case "FromJSON": // Vs = k1, v1, k2, v2, ... (distinct keys, distinct values)
+		obj := map[string]int{}
+		for i := 0; i+1 < len(c.Vs); i += 2 {
+			obj[strconv.Itoa(c.Vs[i])] = c.Vs[i+1]
+		}
+		text := []byte("{")
+		for i := 0; i+1 < len(c.Vs); i += 2 { // textual order as given (it matters for the linked map)
+			if i > 0 {
+				text = append(text, ',')
+			}
+			text = append(text, []byte(strconv.Quote(strconv.Itoa(c.Vs[i]))+":"+strconv.Itoa(c.Vs[i+1]))...)
+		}
+		text = append(text, '}')
+		return []any{m.(jsonable).FromJSON(text) == nil}
 	default:
 		die("map: unknown op %s", c.Op)
 	}
@@ -495,6 +511,19 @@ func (u *mapUniverse) Calls(x Inst) []Call {
 		for v := -1; v <= u.nv; v++ {
 			cs = append(cs, Call{Op: "GetKey", V: v})
 		}
+	}
+	// loads: keys and values pairwise different under EVERY comparator in use (even numbers), so that the
+	// outcome does not depend on Go's map iteration order; textual order descending (it matters for the linked map)
+	var pairs []int
+	for k, v := (u.nk-1)/2*2, 0; k >= 0; k, v = k-2, v+2 {
+		if mapBidi(u.kind) && v >= u.nv {
+			break
+		}
+		pairs = append(pairs, k, v)
+	}
+	cs = append(cs, Call{Op: "FromJSON", Vs: []int{}}, Call{Op: "FromJSON", Vs: pairs})
+	if len(pairs) > 2 {
+		cs = append(cs, Call{Op: "FromJSON", Vs: pairs[2:]})
 	}
 	return cs
 }
